@@ -436,6 +436,9 @@ func (th *Thread) doAppend(s Slice, arg Value, fn *ssa.Builtin) Value {
 		}
 	case Slice:
 		if a.arr != nil {
+			if !e.path.FewValues(a.ln, 64) {
+				return th.appendSymbolic(s, a)
+			}
 			n := e.path.Concretize(a.ln, "append source len")
 			for i := uint64(0); i < n; i++ {
 				add = append(add, th.byteAt(a, i))
@@ -454,7 +457,16 @@ func (th *Thread) doAppend(s Slice, arg Value, fn *ssa.Builtin) Value {
 		return s
 	}
 	if s.arr != nil {
-		panic(inconclusive{"append to solver-array object"})
+		// append to a solver-array slice: always into a fresh object (growth policy: exact)
+		n := s.ln
+		e.narr++
+		obj := &ArrObj{name: fmt.Sprintf("arr%d", e.narr), arr: s.arr.arr, size: -1}
+		base := s.off
+		for i, v := range add {
+			obj.arr = p.Store(obj.arr, p.Bin(OpAdd, p.Bin(OpAdd, base, n), p.BV(uint64(i), 64)), v.(*Term))
+		}
+		nl := p.Bin(OpAdd, n, p.BV(uint64(len(add)), 64))
+		return Slice{arr: obj, off: base, ln: nl, cp: nl}
 	}
 	n := e.path.Concretize(s.ln, "append dest len")
 	c := e.path.Concretize(s.cp, "append dest cap")
@@ -492,6 +504,36 @@ func (th *Thread) doAppend(s Slice, arg Value, fn *ssa.Builtin) Value {
 		}
 	}
 	return Slice{data: data, off: p.BV(0, 64), ln: p.BV(need, 64), cp: p.BV(newcap, 64)}
+}
+
+// appendSymbolic: append(dst, src...) where src is a solver-array slice whose
+// length has many feasible values: the result is a fresh solver-array object
+// (dst's bytes, then src's bytes) of symbolic length.
+func (th *Thread) appendSymbolic(dst, src Slice) Value {
+	e := th.eng
+	p := e.pool
+	e.narr++
+	var arr *Term
+	var dn *Term
+	if dst.arr != nil {
+		panic(inconclusive{"append of a symbolic-length slice to a solver-array slice"})
+	}
+	// result[i] = dst[i] for i < len(dst); src[i-len(dst)] after that. With a
+	// zero-filled fresh src (the only producer of such slices: make) the tail is src's array shifted;
+	// we require src.off == 0 and take src's array with dst's bytes stored in front of a shifted view.
+	dcells := th.sliceCells(dst, "append dest")
+	dn = p.BV(uint64(len(dcells)), 64)
+	if src.arr.arr.Op != OpConstArr {
+		panic(inconclusive{"append of a symbolic-length slice that is not freshly zeroed"})
+	}
+	arr = src.arr.arr
+	for i := range dcells {
+		e.access(th, &dcells[i], false)
+		arr = p.Store(arr, p.BV(uint64(i), 64), dcells[i].(*Term))
+	}
+	nl := p.Bin(OpAdd, dn, src.ln)
+	obj := &ArrObj{name: fmt.Sprintf("arr%d", e.narr), arr: arr, size: -1}
+	return Slice{arr: obj, off: p.BV(0, 64), ln: nl, cp: nl}
 }
 
 // zeroLike builds a zero value with the same shape as v.
